@@ -64,6 +64,8 @@ def check_c12(tier, seed):
         R.violation("%s  [history #%d: %s -> %s]" % (bad[0], i, l[2:], o[2:]),
                     {"kind": "input", "failing_input": l, "index": i, "seed": seed, "implementation": o, "model": model[i], "violations": bad, "cases_failing": nbad,
                      "reproduce": "echo '%s' > ops; VERIF_OPS=ops VERIF_OUT=out go test -tags verif -run TestVerifDriver ./internal/kessoku" % l})
+    from . import p_e2e
+    p_e2e.names_e2e(R, repo_dir, tier, seed)
     if diffs and not R.violations:
         i = diffs[0]
         R.violation("allocator model and implementation differ on %d histories, but every implementation answer is fresh" % len(diffs),
